@@ -114,6 +114,12 @@ func (w *world) Ops() []seqx.Op {
 	var ops []seqx.Op
 	maxN := core.Pick(2, 3)
 	canHi := (w.sh.Codec == "vp8" && w.sh.X && w.sh.T) || w.sh.Codec == "vp9"
+	// macro: 16384 x (one forwarded 1-packet frame, one withheld 4-packet
+	// frame): exactly 65536 packets withheld, so the seqno shift wraps to 0
+	// while the picture-id shift does not
+	if canHi && w.sh.Codec == "vp8" && w.sh.M && w.frames == 1 && w.cfg.CSRC == 0 && !w.cfg.Ext && (w.cfg.PidStart == 0 || !core.Quick()) {
+		ops = append(ops, op{N: -16384, Tid: 1})
+	}
 	for n := 1; n <= maxN; n++ {
 		ops = append(ops, op{N: n, Tid: 0})
 		if canHi && w.frames > 0 { // a stream starts with a base-layer frame
@@ -186,6 +192,20 @@ func (w *world) frame(o op) []srcPkt {
 
 func (w *world) Apply(x seqx.Op) *core.Violation {
 	o := x.(op)
+	if o.N < 0 {
+		for i := 0; i < -o.N; i++ {
+			if v := w.Apply(op{N: 1, Tid: 0}); v != nil {
+				v.What = fmt.Sprintf("after %d rounds of (1 packet forwarded, 4 withheld): %s", i, v.What)
+				v.Signature += "/after-65536-withheld-packets"
+				return v
+			}
+			if v := w.Apply(op{N: 4, Tid: 1}); v != nil {
+				return v
+			}
+		}
+		w.hist = w.hist[:0]
+		return nil
+	}
 	w.hist = append(w.hist, o)
 	pkts := w.frame(o)
 	codec := codecOf(w.sh).MimeType
